@@ -135,6 +135,16 @@ impl VacancyTracker {
     }
 }
 
+#[cfg(folo_verif)]
+impl VacancyTracker {
+    /// Verification hook: the vacancy bit of one slab, `None` if out of range.
+    pub(crate) fn verif_vacancy_bit(&self, slab_index: usize) -> Option<bool> {
+        let next = slab_index.checked_add(1)?;
+        let slice = self.has_vacancy.get(slab_index..next)?;
+        Some(slice.first_one().is_some())
+    }
+}
+
 #[cfg(test)]
 #[allow(
     clippy::multiple_unsafe_ops_per_block,
